@@ -1105,8 +1105,12 @@ def _lines_on(env):
     global _LINE_CODES
     if _LINE_CODES is None:
         S = bm.Server
-        _LINE_CODES = linepoints.codes_of(S.serve_client, S.create, S.incref,
-                                          S.decref)
+        # incref / decref are short read-modify-write functions: every
+        # bytecode instruction is a scheduling point there (a one-line
+        # ``d[k] -= 1`` cannot be split by LINE events)
+        _LINE_CODES = linepoints.codes_of(S.serve_client, S.create)
+        linepoints.enable(linepoints.codes_of(S.incref, S.decref),
+                          instructions=True)
         linepoints.enable(_LINE_CODES)
     env.sched.linepoints = True
 
